@@ -255,6 +255,15 @@ def run_unit(modname, keep_dir=None, rlimit=None):
                    text=(prim['text'][0]['text'].strip() if prim and prim.get('text') else ''),
                    rendered=dg.get('rendered', ''))
         res.raw_messages.append(rec)
+        in_canary = False
+        for ln in span_lines:
+            f0, _o = ub.locate(ln)
+            if f0 is not None and f0['mode'] == 'canary':
+                in_canary = True
+        if kind is None and in_canary and ('rlimit' in msg.lower() or 'resource limit' in msg.lower()):
+            rec['fn'] = 'canary-timeout'
+            res.canary_timeouts = getattr(res, 'canary_timeouts', 0) + 1
+            continue
         if kind is None or dg.get('code'):
             hard.append(rec)
         else:
@@ -313,8 +322,13 @@ def run_unit(modname, keep_dir=None, rlimit=None):
             canary_failed.add(rec['fn'])
         else:
             res.failures.append(rec)
+    timed_out = set()
+    for name, t in res.fn_times.items():
+        if name.endswith('__canary') and t.get('success') is False:
+            timed_out.add(name.split('::', 1)[-1])
     for c in ub.canaries:
-        (res.canary_ok if c in canary_failed else res.canary_bad).append(c)
+        # a canary twin that fails (or that the solver gives up on) is not evidence of vacuity
+        (res.canary_ok if (c in canary_failed or c in timed_out) else res.canary_bad).append(c)
     # obligations = verification units reported by Verus (functions, lemmas, loops counted inside)
     res.obligations = sorted(k for k in res.fn_times if not k.endswith('__canary'))
     if res.status == 'undecided' and res.reason:
